@@ -209,6 +209,7 @@ func applyFault(src []byte, f SFault) []byte {
 }
 
 var lineRe = regexp.MustCompile(`(?i)line\s+(\d+)`)
+var anyNumRe = regexp.MustCompile(`\d+`)
 
 type parseObs struct {
 	ok       bool
@@ -313,6 +314,19 @@ func (corruptScen) Exec(w *World, cc any, prop string) *Result {
 			}
 			lines := strings.Split(src, "\n")
 			m := lineRe.FindStringSubmatch(a.errText)
+			if m == nil {
+				// the wording of the citation is not specified ("line 3", "3:", "L3" ...): accept any
+				// number in the message that is a line of the input whose text the message quotes
+				for _, num := range anyNumRe.FindAllString(a.errText, -1) {
+					if k, err := strconv.Atoi(num); err == nil && k >= 1 && k <= len(lines) {
+						if t := strings.TrimSpace(lines[k-1]); t == "" || strings.Contains(a.errText, t) {
+							m = []string{num, num}
+							res.count("accept_either:line_cited_in_another_wording")
+							break
+						}
+					}
+				}
+			}
 			if m == nil {
 				res.violate("C08", "error-cites-a-line", sig, "the syntax error for %q cites no line number: %q", short(src, 200), short(a.errText, 300))
 				return res
